@@ -194,14 +194,17 @@ class TopV(V):
 
 
 class IntV(V):
-    __slots__ = ("lin", "cond")
+    """lin: the value as a linear form; cond: how a boolean was computed;
+    rng: (min, max) of the declared type of the place the value lives in."""
+    __slots__ = ("lin", "cond", "rng")
 
-    def __init__(self, lin, cond=None):
+    def __init__(self, lin, cond=None, rng=None):
         self.lin = lin
         self.cond = cond
+        self.rng = rng
 
     def __eq__(self, o):
-        return isinstance(o, IntV) and self.lin == o.lin and self.cond == o.cond
+        return isinstance(o, IntV) and self.lin == o.lin and self.cond == o.cond and self.rng == o.rng
 
     def __hash__(self):
         return hash(self.lin)
@@ -381,13 +384,14 @@ class ClosureV(V):
 
 class State:
     """store: root -> V ; atoms: atom -> (lo, hi) ; facts: set of Lin (>= 0)."""
-    __slots__ = ("store", "atoms", "facts", "created", "_idx", "_nf")
+    __slots__ = ("store", "atoms", "facts", "created", "defs", "_idx", "_nf")
 
-    def __init__(self, store=None, atoms=None, facts=None, created=None):
+    def __init__(self, store=None, atoms=None, facts=None, created=None, defs=None):
         self.store = store if store is not None else {}
         self.atoms = atoms if atoms is not None else {}
         self.facts = facts if facts is not None else set()
         self.created = created if created is not None else set()
+        self.defs = defs if defs is not None else {}    # atom -> (op, Lin, Lin)
         self._idx = None
         self._nf = -1
 
@@ -403,7 +407,7 @@ class State:
         return self._idx
 
     def copy(self):
-        return State(dict(self.store), dict(self.atoms), set(self.facts), set(self.created))
+        return State(dict(self.store), dict(self.atoms), set(self.facts), set(self.created), dict(self.defs))
 
     # ---- intervals
     def aiv(self, a):
@@ -427,6 +431,27 @@ class State:
     def lb(self, lin):
         return self.iv(lin)[0]
 
+    def iv2(self, lin):
+        """Interval of lin tightened by single facts: for a fact g >= 0,
+        lin >= lin - g and lin <= lin + g."""
+        lo, hi = self.iv(lin)
+        if lo == hi or not lin.d or not self.facts:
+            return (lo, hi)
+        idx = self.fidx()
+        seen = set()
+        for a in lin.d:
+            for g in idx.get(a, ()):
+                if id(g) in seen:
+                    continue
+                seen.add(id(g))
+                l2 = self.iv(lin.sub(g))[0]
+                if l2 > lo:
+                    lo = l2
+                h2 = self.iv(lin.add(g))[1]
+                if h2 < hi:
+                    hi = h2
+        return (lo, hi)
+
     def const_of(self, lin):
         lo, hi = self.iv(lin)
         return lo if lo == hi else None
@@ -445,6 +470,7 @@ class State:
     def kill_atom(self, a):
         self.atoms.pop(a, None)
         self.facts = {f for f in self.facts if a not in f.d}
+        self.defs.pop(a, None)
         self._idx = None
 
     # ---- facts
@@ -489,6 +515,136 @@ class State:
                             return True
         return False
 
+    def eval_def(self, d):
+        """Interval of a defined (non-linear) atom from its operands."""
+        op, la, lb = d
+        (al, ah), (bl, bh) = self.iv(la), self.iv(lb)
+        if al < 0 or bl < 0 or ah == INF or bh == INF:
+            return None
+        if op == "shl":
+            if bh >= 128:
+                return None
+            return (al << bl, ah << bh)
+        if op == "shr":
+            if bh >= 128:
+                return None
+            return (al >> bh, ah >> bl)
+        if op == "mul":
+            return (al * bl, ah * bh)
+        if op == "and":
+            if al == ah and bl == bh:
+                return (al & bl, al & bl)
+            return (0, min(ah, bh))
+        if op in ("or", "xor"):
+            if al == ah and bl == bh:
+                v = (al | bl) if op == "or" else (al ^ bl)
+                return (v, v)
+            n = max(int(ah).bit_length(), int(bh).bit_length())
+            return (0, (1 << n) - 1)
+        return None
+
+    def settle(self, rel):
+        """Tighten atoms in rel using definitions and facts (bounded rounds)."""
+        idx = self.fidx()
+        for _ in range(4):
+            changed = False
+            for a in rel:
+                d = self.defs.get(a)
+                if d is not None:
+                    r = self.eval_def(d)
+                    if r is not None:
+                        lo, hi = self.aiv(a)
+                        nlo, nhi = max(lo, r[0]), min(hi, r[1])
+                        if nlo > nhi:
+                            return False
+                        if (nlo, nhi) != (lo, hi):
+                            self.atoms[a] = (nlo, nhi)
+                            changed = True
+            seen = set()
+            for a in rel:
+                for f in idx.get(a, ()):
+                    if id(f) in seen:
+                        continue
+                    seen.add(id(f))
+                    before = [self.aiv(x) for x in f.d]
+                    if not self._propagate(f, again=False):
+                        return False
+                    if before != [self.aiv(x) for x in f.d]:
+                        changed = True
+            if not changed:
+                break
+        return True
+
+    def prove_cases(self, lin, budget=4096):
+        """Prove lin >= 0 by enumerating the values of small-domain atoms the
+        obligation depends on (through definitions and facts)."""
+        if not lin.d:
+            return lin.c >= 0
+        idx = self.fidx()
+        rel = set(lin.d)
+        frontier = list(rel)
+        for _ in range(4):
+            nxt = []
+            for a in frontier:
+                d = self.defs.get(a)
+                if d is not None:
+                    for l in (d[1], d[2]):
+                        for x in l.d:
+                            if x not in rel:
+                                rel.add(x)
+                                nxt.append(x)
+                for f in idx.get(a, ()):
+                    if len(f.d) <= 10:
+                        for x in f.d:
+                            if x not in rel:
+                                rel.add(x)
+                                nxt.append(x)
+            frontier = nxt
+            if not frontier or len(rel) > 200:
+                break
+        cands = []
+        for a in rel:
+            lo, hi = self.aiv(a)
+            if lo != -INF and hi != INF and 2 <= hi - lo + 1 <= 16:
+                cands.append((hi - lo + 1, a))
+        if not cands:
+            return False
+        cands.sort()
+        chosen = []
+        prod = 1
+        for n, a in cands:
+            if prod * n > budget:
+                break
+            prod *= n
+            chosen.append(a)
+        if not chosen:
+            return False
+
+        def rec(st, i):
+            if i == len(chosen):
+                if not st.settle(rel):
+                    return True          # infeasible case
+                return st.prove(lin)
+            a = chosen[i]
+            lo, hi = st.aiv(a)
+            for v in range(int(lo), int(hi) + 1):
+                s2 = State(st.store, dict(st.atoms), st.facts, st.created, st.defs)
+                s2._idx, s2._nf = st._idx, st._nf
+                s2.atoms[a] = (v, v)
+                # cheap feasibility + propagation on facts touching a
+                okk = True
+                for f in idx.get(a, ()):
+                    if not s2._propagate(f, again=False):
+                        okk = False
+                        break
+                if not okk:
+                    continue
+                if not rec(s2, i + 1):
+                    return False
+            return True
+
+        return rec(self, 0)
+
     def assume(self, lin):
         """Add lin >= 0.  Returns False if the state becomes infeasible."""
         lo, hi = self.iv(lin)
@@ -505,18 +661,14 @@ class State:
         changed = []
         for a, k in lin.d.items():
             # k*a >= -(c + sum others)  with others at their upper bound
-            rest_hi = lin.c
-            for b, kb in lin.d.items():
-                if b == a:
-                    continue
-                bl, bh = self.aiv(b)
-                rest_hi += kb * bh if kb > 0 else kb * bl
+            rest = Lin({b: kb for b, kb in lin.d.items() if b != a}, lin.c)
+            rest_hi = self.iv2(rest)[1] if len(rest.d) > 1 else self.iv(rest)[1]
             if rest_hi == INF or rest_hi == -INF:
                 continue
             al, ah = self.aiv(a)
             need = -rest_hi
             if k > 0:
-                nl = -((-need) // k) if need > -INF else al  # ceil(need/k)
+                nl = -((-need) // k)  # ceil(need/k)
                 if nl > al:
                     al = nl
                     changed.append(a)
@@ -529,11 +681,18 @@ class State:
             if al > ah:
                 return False
             self.atoms[a] = (al, ah)
-        if changed and again:
-            for f in list(self.facts):
-                if f is not lin and any(a in f.d for a in changed):
-                    if not self._propagate(f, again=False):
-                        return False
+        if again:
+            idx = self.fidx()
+            todo = []
+            seen = {id(lin)}
+            for a in (changed if changed else lin.d):
+                for f in idx.get(a, ()):
+                    if id(f) not in seen:
+                        seen.add(id(f))
+                        todo.append(f)
+            for f in todo:
+                if not self._propagate(f, again=False):
+                    return False
         return True
 
     def assume_eq(self, lin):
@@ -620,7 +779,8 @@ def value_refs(v):
 class Joiner:
     """Joins two states at a node with deterministic fresh atoms."""
 
-    def __init__(self, node_key, s1, s2, widen=False, thresholds=None):
+    def __init__(self, node_key, s1, s2, widen=False, thresholds=None, diffs=False):
+        self.diffs = diffs
         self.nk = node_key
         self.s1 = s1
         self.s2 = s2
@@ -658,8 +818,111 @@ class Joiner:
             if a not in a1 and a not in fresh_atoms:
                 oa[a] = r2
         self._facts()
+        self._defs()
+        if self.diffs:
+            self._diffs()
         self.out.created = self.s1.created | self.s2.created | {a for a, _, _ in self.changed}
         return self.out
+
+    def _defs(self):
+        s1, s2, out = self.s1, self.s2, self.out
+        if not s1.defs and not s2.defs:
+            return
+        fresh = {a for a, _, _ in self.changed}
+        d1, d2 = s1.defs, s2.defs
+        for a, d in d1.items():
+            if a in fresh:
+                continue
+            e = d2.get(a)
+            if e is None:
+                if a not in s2.atoms:
+                    out.defs[a] = d
+            elif e == d:
+                if fresh.isdisjoint(d[1].d.keys()) and fresh.isdisjoint(d[2].d.keys()):
+                    out.defs[a] = d
+        for a, d in d2.items():
+            if a not in d1 and a not in fresh and a not in s1.atoms:
+                out.defs[a] = d
+        if not self.changed:
+            return
+        m1, m2 = {}, {}
+        sub1, sub2 = {}, {}
+        for al, l1, l2 in self.changed:
+            sub1[al] = l1
+            sub2[al] = l2
+            for lin, m in ((l1, m1), (l2, m2)):
+                sg = lin.single()
+                if sg and sg[1] == 1:
+                    m.setdefault(sg[0], Lin.var(al).addc(-sg[2]))
+
+        def same(st, sub, x, y):
+            """x (over fresh atoms) equals y (over fresh atoms) in input state st."""
+            d = x.subst(sub).sub(y.subst(sub))
+            return st.prove(d, 1) and st.prove(d.neg(), 1)
+
+        for al, l1, l2 in self.changed:
+            g1, g2 = l1.single(), l2.single()
+            if not (g1 and g2 and g1[1] == g2[1] and g1[2] == g2[2] and g1[1] > 0):
+                continue
+            e1, e2 = d1.get(g1[0]), d2.get(g2[0])
+            if e1 is None or e2 is None or e1[0] != e2[0]:
+                continue
+            x1 = (e1[1].subst(m1), e1[2].subst(m1))
+            x2 = (e2[1].subst(m2), e2[2].subst(m2))
+            uni = None
+            if x1 == x2:
+                uni = x1
+            elif same(s1, sub1, x1[0], x2[0]) and same(s1, sub1, x1[1], x2[1]):
+                uni = x2
+            elif same(s2, sub2, x1[0], x2[0]) and same(s2, sub2, x1[1], x2[1]):
+                uni = x1
+            if uni is None:
+                continue
+            # the unified definition may only mention atoms that live in the result
+            okk = True
+            for l in uni:
+                for x in l.d:
+                    if x not in out.atoms and not (x in s1.atoms and x in s2.atoms):
+                        okk = False
+            if not okk:
+                continue
+            k, c = g1[1], g1[2]
+            if k == 1 and c == 0:
+                out.defs[al] = (e1[0], uni[0], uni[1])
+            else:
+                be = atom(("jd", al))
+                r1, r2 = s1.aiv(g1[0]), s2.aiv(g2[0])
+                out.atoms[be] = (min(r1[0], r2[0]), max(r1[1], r2[1]))
+                _ATOM_RANGE[be] = (-INF, INF)
+                out.defs[be] = (e1[0], uni[0], uni[1])
+                eq = Lin({al: 1, be: -k}, -c)
+                out.facts.add(eq)
+                out.facts.add(eq.neg())
+
+    def _diffs(self):
+        """Octagon-style inference at joins: for pairs of changed integers,
+        keep the best common lower bound of their difference."""
+        ch = self.changed
+        if len(ch) < 2 or len(ch) > 14:
+            return
+        s1, s2, out = self.s1, self.s2, self.out
+        for i in range(len(ch)):
+            ai, l1i, l2i = ch[i]
+            for j in range(len(ch)):
+                if i == j:
+                    continue
+                aj, l1j, l2j = ch[j]
+                c1 = s1.iv2(l1i.sub(l1j))[0]
+                if c1 == -INF:
+                    continue
+                c2 = s2.iv2(l2i.sub(l2j))[0]
+                if c2 == -INF:
+                    continue
+                c = min(c1, c2)
+                g = Lin({ai: 1, aj: -1}, -c)
+                if out.lb(g) >= 0:
+                    continue
+                out.facts.add(g)
 
     def _widen(self, a, old, new):
         lo, hi = new
@@ -676,30 +939,30 @@ class Joiner:
 
     def jint(self, a, b, path):
         if a.lin == b.lin:
-            if a.cond == b.cond:
+            if a.cond == b.cond and a.rng == b.rng:
                 return a
-            return IntV(a.lin, None)
-        l1, h1 = self.s1.iv(a.lin)
-        l2, h2 = self.s2.iv(b.lin)
+            return IntV(a.lin, a.cond if a.cond == b.cond else None, a.rng if a.rng == b.rng else None)
+        l1, h1 = self.s1.iv2(a.lin)
+        l2, h2 = self.s2.iv2(b.lin)
+        rng = None
+        if a.rng is not None and b.rng is not None:
+            rng = (min(a.rng[0], b.rng[0]), max(a.rng[1], b.rng[1]))
+        if a.rng is not None:
+            l1, h1 = max(l1, a.rng[0]), min(h1, a.rng[1])
+        if b.rng is not None:
+            l2, h2 = max(l2, b.rng[0]), min(h2, b.rng[1])
         lo, hi = min(l1, l2), max(h1, h2)
         key = ("j", self.nk, path)
         al = atom(key)
-        tl, th = atom_range(al)
-        # type range: inherit from operands' atoms when the join atom is new
-        if (tl, th) == (-INF, INF):
-            rl, rh = -INF, INF
-            for lin in (a.lin, b.lin):
-                for x in lin.d:
-                    xl, xh = atom_range(x)
-                    if len(lin.d) == 1 and lin.c == 0 and list(lin.d.values())[0] == 1:
-                        rl, rh = max(rl, xl) if rl != -INF else xl, min(rh, xh) if rh != INF else xh
-            _ATOM_RANGE[al] = (rl, rh)
+        if rng is not None:
+            _ATOM_RANGE[al] = rng
+        else:
+            _ATOM_RANGE.setdefault(al, (-INF, INF))
         if self.widen:
-            old = self.s1.iv(a.lin)
-            lo, hi = self._widen(al, old, (lo, hi))
+            lo, hi = self._widen(al, (l1, h1), (lo, hi))
         self.out.atoms[al] = (lo, hi)
         self.changed.append((al, a.lin, b.lin))
-        return IntV(Lin.var(al))
+        return IntV(Lin.var(al), None, rng)
 
     def jv(self, a, b, path):
         if a is b:
@@ -866,10 +1129,17 @@ def summarise(st, x, y, key):
     if isinstance(y, BotV):
         return x
     if isinstance(x, IntV) and isinstance(y, IntV):
-        l1, h1 = st.iv(x.lin)
-        l2, h2 = st.iv(y.lin)
-        a = st.fresh(key, min(l1, l2), max(h1, h2))
-        return IntV(Lin.var(a))
+        l1, h1 = st.iv2(x.lin)
+        l2, h2 = st.iv2(y.lin)
+        rng = None
+        if x.rng is not None and y.rng is not None:
+            rng = (min(x.rng[0], y.rng[0]), max(x.rng[1], y.rng[1]))
+        if x.rng is not None:
+            l1, h1 = max(l1, x.rng[0]), min(h1, x.rng[1])
+        if y.rng is not None:
+            l2, h2 = max(l2, y.rng[0]), min(h2, y.rng[1])
+        a = st.fresh(key, min(l1, l2), max(h1, h2), rng)
+        return IntV(Lin.var(a), None, rng)
     if type(x) is not type(y):
         return TopV()
     if isinstance(x, StructV) and x.name == y.name and len(x.fields) == len(y.fields):
